@@ -77,15 +77,9 @@ Proof.
   - apply Nat.ltb_ge in E5. repeat split; lia.
 Qed.
 
-Section ParseProofs.
-  Variable enc dec : list N -> list N -> list N.
-  Variable mac : list N -> list N -> list N.
-  Hypothesis enc_len : forall k b, length (enc k b) = 16.
-  Hypothesis mac_len : forall k m, length (mac k m) = 16.
-
   (* authenticity: the MIC check accepts exactly when the frame's MIC equals the reference MIC
      for the given 32-bit counter and the frame's own direction bit *)
-  Theorem validate_mic_iff bs key n : 9 <= length bs ->
+  Theorem validate_mic_iff (mac : list N -> list N -> list N) bs key n : 9 <= length bs ->
     (validate_mic mac bs key n = true <-> wire_mic bs = spec_mic mac bs key n).
   Proof.
     intros Hlen.
@@ -98,6 +92,13 @@ Section ParseProofs.
     { unfold slice. rewrite skipn_firstn_comm, firstn_firstn. f_equal. lia. }
     rewrite Hd, Hs, dir_bit. repeat rewrite <- app_assoc. cbn [app]. reflexivity.
   Qed.
+
+
+Section ParseProofs.
+  Variable enc dec : list N -> list N -> list N.
+  Variable mac : list N -> list N -> list N.
+  Hypothesis enc_len : forall k b, length (enc k b) = 16.
+  Hypothesis mac_len : forall k m, length (mac k m) = 16.
 
   (* a failing checked decode leaves the caller's buffer byte-identical *)
   Theorem failed_check_leaves_buffer bs nwk appk n e :
